@@ -25,7 +25,9 @@ type bceResidue struct {
 var bceLine = regexp.MustCompile(`^(.+\.go):(\d+):(\d+): Found (IsInBounds|IsSliceInBounds)`)
 
 func runBCE(goos, goarch string, overlay map[string][]byte) (*bceResidue, error) {
-	args := []string{"build", "-gcflags=" + modPath + "/...=-l -d=ssa/check_bce/debug=1"}
+	// -trimpath: positions are reported relative to the module, and the build cache is shared between copies of the
+	// tree at different places (a scratch copy per checked variant would otherwise fill the cache with duplicates)
+	args := []string{"build", "-trimpath", "-gcflags=" + modPath + "/...=-l -d=ssa/check_bce/debug=1"}
 	if overlay != nil {
 		jp, cleanup, err := writeOverlayFile(overlay)
 		if err != nil {
@@ -62,6 +64,7 @@ func runBCE(goos, goarch string, overlay map[string][]byte) (*bceResidue, error)
 				}
 			}
 			file = strings.TrimPrefix(file, "./")
+			file = strings.TrimPrefix(file, modPath+"/")
 			res.sites[fmt.Sprintf("%s:%s:%s", file, m[2], m[3])] = m[4]
 			res.lines++
 			continue
